@@ -127,6 +127,17 @@ CHECKS = {
   note=TRUST + 'Flag assignments are enumerated, operands are symbolic. Outside: BODY/TEXT/HEADER/address/subject and sent-date keys '
        '(email package), two top-level keys of the same family (told apart by hash(SearchKey)).',
   technique='symbolic execution of the real search code with z3 against RFC semantics as a z3 term'),
+ 'C14': dict(
+  category='fault_enumeration',
+  text='Fault schedules as solver variables on the real session layer and dict backend: every lock acquisition of MOVE, UID MOVE, COPY, '
+       'two-message APPEND and EXPUNGE may suspend (one symbolic Boolean each, <= 8) and at every suspension the command may be cancelled '
+       '(one symbolic Boolean each, at most one cancellation); UID base and set numbers are symbolic; after every schedule: each moved or '
+       'copied message is in the source or the destination, a completed MOVE leaves it in exactly one, a two-message APPEND that does not '
+       'complete with OK stores none, NO/BAD changes nothing. Two genuine defects are recorded as known findings (MOVE cancellation window, '
+       'MULTIAPPEND partial) and reported as KNOWN-FINDING; any other violation is a VIOLATION.',
+  note=TRUST + 'Lock acquisition is the only suspension point of the dict backend; the lock stub over-approximates contention. Outside: '
+       'process kill and maildir (C15), two commands interleaving inside the window.',
+  technique='symbolic fault schedule (suspend/cancel Booleans) explored with z3 over the real code'),
  'C16': dict(
   text='Assume/guarantee decomposition on the real code: (1) dict MailboxData.update_selected(wait_on) started on a real asyncio loop from '
        'change logs produced by <= 2 (quick) / 3 (thorough) mutations with the idler\'s consumed position a symbolic integer 0..highest (or '
